@@ -52,7 +52,7 @@ pub fn check(c: &Case, ctx: &mut Ctx) -> Result<(), Failure> {
         if t >= n + 2 {
             reached = true;
         }
-        let tol = tau(t) * big;
+        let tol = tau(t) * big + tol_floor(w.len());
         match k {
             Kind::Sma | Kind::Wma | Kind::Mad => {
                 let r = match k {
@@ -89,7 +89,7 @@ pub fn check(c: &Case, ctx: &mut Ctx) -> Result<(), Failure> {
             Kind::Sd => {
                 let v = var_pop(w);
                 let got = out.x();
-                let tolv = tau(t) * big * big;
+                let tolv = tau(t) * big * big + tol_floor(w.len());
                 let e = err(got * got, v);
                 ctx.worst(name, if tolv > 0.0 { e / tolv } else if e == 0.0 { 0.0 } else { f64::INFINITY });
                 if !(e <= tolv) || !(got >= 0.0) {
@@ -111,7 +111,7 @@ pub fn check(c: &Case, ctx: &mut Ctx) -> Result<(), Failure> {
                     )?;
                 }
                 let v = var_pop(w);
-                let tolv = tau(t) * big * big;
+                let tolv = tau(t) * big * big + tol_floor(w.len());
                 let (slo, shi) = sd_interval(v, tolv);
                 let level = out.v[0].abs().max(out.v[1].abs()).max(out.v[2].abs());
                 let slack = 4.0 * ulp(level) + 4.0 * ulp(m.abs() * shi);
@@ -215,4 +215,22 @@ pub fn run(g: &mut Global) {
     // streams of 10 000 .. 20 000 inputs (hundreds of wrap-arounds); quick keeps the periods small
     let cap = g.tier.pick(48usize, 1024usize);
     g.random("long", g.tier.pick(64, 1000), &move || long_strategy(cap), &check);
+    // ultra-long single-instance streams, recomputed from the harness's ring at sampled steps and
+    // densely after every power-of-two step count (c13::check_as)
+    let seed = g.seed;
+    let wk = [(Kind::Sma, 5usize), (Kind::Wma, 7), (Kind::Sd, 20), (Kind::Bb, 9), (Kind::Min, 14), (Kind::Max, 3), (Kind::Mad, 6), (Kind::Sd, 3)];
+    g.exhaustive(
+        "ultra",
+        g.tier.pick(8 * 2, 8 * 5),
+        &move |i| {
+            let (kind, n) = wk[(i % 8) as usize];
+            let regime = [3usize, 0, 4, 1, 2][((i / 8) % 5) as usize];
+            let mut s = seed ^ (i + 3).wrapping_mul(0xA0761D6478BD642F);
+            let sd = splitmix(&mut s);
+            // the first round of configurations goes beyond 2^24 inputs, the others beyond 2^16
+            let len = if i < 8 && kind != Kind::Mad { (1usize << 24) + 4000 } else { 140_000 };
+            crate::props::c13::Case { kind, n, regime, base: X([0.37, 85.18, 1e4][(sd % 3) as usize]), seed: sd, len, saw: 2 + (sd >> 9) as usize % (n + 2) }
+        },
+        &|c, ctx| crate::props::c13::check_as(c, ctx, "C01", true),
+    );
 }
